@@ -129,11 +129,11 @@ Theorem C03_run_search_shape : run_search_shape sk_run_search = true.
 Proof. vm_compute. reflexivity. Qed.
 
 (* --- T1: _sequence_search / _process_sequence_results, branch for branch - *)
-(* (a) calls and if/loop structure of the extracted trees (reads, writes
-   and anything the translator does not map are erased) are the ones the
-   model's branches are written against (Model/SequenceSk.v) *)
-Theorem C03_sequence_search_shape :
-  calls_only_list tk_sequence_search = expected_sequence_search.
+(* (a) how often each call occurs in _sequence_search (helpers walked in
+   place, any arrangement of tests): Model/SequenceSk.v
+   [expected_sequence_search_counts] *)
+Theorem C03_sequence_search_calls :
+  sequence_search_counts tk_sequence_search = true.
 Proof. vm_compute. reflexivity. Qed.
 
 (* _process_sequence_results: the calls that matter and the number of loops
@@ -145,9 +145,10 @@ Theorem C03_process_sequence_results_calls :
 Proof. vm_compute. reflexivity. Qed.
 
 (* (b) interpreting the extracted tree of _sequence_search - each call event
-   as the model operation of that name, each `if` decided by the model
-   condition listed for it in source order, each test having read the
-   attributes it is about - IS the model's step, for every definition
+   as the model operation of that name, each `if` classified by the
+   attributes it reads and decided by the corresponding model condition
+   ([sinterp]: robust to elif / early return / negated tests / a helper
+   walked in place) - IS the model's step, for every definition
    shape, every state and every line *)
 Theorem C03_sequence_search_is_ctl_step : forall sh k c,
   run_seq_tree tk_sequence_search sh k c = Some (ctl_step sh k c).
@@ -169,6 +170,13 @@ Proof.
   intros [he hb ee] [stt cu nx].
   destruct he, stt, ee; vm_compute; (split; [discriminate | repeat constructor]).
 Qed.
+
+(* filter_section_id is created empty once, before the loop over the
+   definitions, and never re-assigned as a whole: what one definition
+   registered stays registered (m_eof_scan threads [flt] the same way) *)
+Theorem C03_eof_filter_accumulates :
+  x_eof_filter_created_once_before_loop = true.
+Proof. reflexivity. Qed.
 
 (* ... and [seq_eof] is the application of that action (the end result is
    numbered one past the last line) *)
@@ -303,11 +311,12 @@ Print Assumptions C03_multi_exact.
 Print Assumptions C03_ids_distinct_across_definitions.
 Print Assumptions C03_legacy_sequence_refuted.
 Print Assumptions C03_run_search_shape.
-Print Assumptions C03_sequence_search_shape.
+Print Assumptions C03_sequence_search_calls.
 Print Assumptions C03_process_sequence_results_calls.
 Print Assumptions C03_sequence_search_is_ctl_step.
 Print Assumptions C03_process_sequence_results_is_eof_action.
 Print Assumptions C03_seq_eof_applies_eof_action.
+Print Assumptions C03_eof_filter_accumulates.
 Print Assumptions C03_seqdef_start_is_do_start.
 Print Assumptions C03_seqdef_reset_is_do_reset.
 Print Assumptions C03_seqdef_stop_is_do_stop.
